@@ -57,6 +57,8 @@ structure Solvers (D : Type) where
   new : Color → D
   /-- `prover.Prove(p)`: the result and the solver afterwards -/
   prove : D → Pos → Except Err (Tak.DFPN.Result Move × D)
+  /-- the attacker the solver has settled on (`Color.none`: not yet); not read by the worker -/
+  attacker : D → Color
 
 /-- state of a `dfpn` worker (fixed tree): the solver whose attacker is White, the one whose attacker is Black;
 each is built when the first position with that side to move arrives -/
@@ -64,12 +66,16 @@ structure DfpnWorker (D : Type) where
   white : Option D := none
   black : Option D := none
 
+/-- `provers[c]`, built on first use with `Attacker: c` -/
+def DfpnWorker.solverFor {D : Type} (sv : Solvers D) (w : DfpnWorker D) (c : Color) : D :=
+  match (if c == .white then w.white else w.black) with
+  | some d => d
+  | none => sv.new c
+
 /-- one round of the worker's `for p := range positions` loop (fixed tree) -/
 def dfpnStep {D : Type} (sv : Solvers D) (w : DfpnWorker D) (p : Pos) : Except Err (Entry × DfpnWorker D) :=
   let att := p.toMove
-  let d := match (if att == .white then w.white else w.black) with
-    | some d => d
-    | none => sv.new att
+  let d := w.solverFor sv att
   match sv.prove d p with
   | .error e => .error e
   | .ok (r, d) => .ok (dfpnLabel r, if att == .white then { w with white := some d } else { w with black := some d })
@@ -98,6 +104,16 @@ def dfpnWorkerPinnedFrom {D : Type} (sv : Solvers D) : D → List Pos → Except
 
 def dfpnWorkerPinned {D : Type} (sv : Solvers D) (ps : List Pos) : Except Err (List Entry) :=
   dfpnWorkerPinnedFrom sv (sv.new .none) ps
+
+/-- the depth-first solver of `Impl/DFPN.lean` as the worker uses it (`scale` = the float threshold `δ₂·(1+ε)`,
+`fuel` = the bound on the model's recursion) -/
+def takSolvers (basis : Array W) (scale : UInt32 → UInt32) (fuel : Nat) : Solvers (Tak.DFPN.Solver Move) :=
+  { new := fun att => Tak.DFPN.newSolver att tableEntries
+    prove := fun d p =>
+      match Tak.DFPN.takProveWith basis scale fuel d p with
+      | .error e => .error e
+      | .ok (r, _, d) => .ok (r, d)
+    attacker := fun d => d.attacker }
 
 /-! ### `-analysis minimax` -/
 
